@@ -20,12 +20,10 @@ NOTES = ("Every check is solver-based (DESIGN.md): Engine K = Kani/CBMC over the
 
 NOT_APPLICABLE = {
     "C01": "not built yet (Engine S, see DESIGN.md section 5)",
-    "C02": "not built yet (Engine S, see DESIGN.md section 5)",
     "C07": "not built yet",
     "C09": "not built yet",
     "C10": "harnesses under construction (not yet registered)",
     "C12": "harnesses under construction (not yet registered)",
-    "C13": "harnesses under construction (not yet registered)",
     "C15": "not built yet",
     "C16": "not built yet",
     "C17": "not built yet",
@@ -104,6 +102,13 @@ PROPS = {
         "Bounded model checking of the real Serialize/Deserialize impls against an in-harness serde data-model back end (token recorder, "
         "self-describing and compact): round trip bit for bit, shape of Alpha / hue / metadata, missing alpha => opaque, helper forms.",
         "Trusted: Kani/CBMC/cadical; the in-harness serde back end. The JSON/RON text layer is outside the claim."),
+    "C02": sprop(
+        "Differential symbolic checking of every directly implemented conversion against an independent transcription of its published "
+        "definition (CIE 15 with exact rational epsilon/kappa, the standards' transfer curves, Smith's hexcone HSV/HSL/HWB, Ottosson's "
+        "Oklab matrices) built in the same term arena: z3 searches the whole input box, both sides of every piecewise join and every hue "
+        "sector, for an input where code and definition differ by more than the tolerance; both the SIMD (mask) and the scalar code path.",
+        "Trusted: z3; the transcriptions in symx/src/reference (each cites its source); transcendental functions are shared "
+        "uninterpreted symbols, so the check decides everything around them (arguments, exponents, thresholds, branch structure)."),
     "C08": sprop(
         "Symbolic execution of the real Blend / Compose / Premultiply code (PreAlpha, Alpha and opaque forms, LinSrgb) and an "
         "independent transcription of the W3C Compositing and Blending formulas in the same term arena; z3 decides for ALL colours and "
